@@ -214,8 +214,9 @@ func loadStateAtHeight(db kaidb.Database, height uint64) *LatestBlockState {
 	state.LastBlockTime = blockMeta.Header.Time
 	state.LastBlockTotalTx = blockMeta.Header.NumTxs
 
-	appHash := rawdb.ReadAppHash(db, height)
-	state.AppHash = appHash
+	if height > 0 { // the genesis state is made and saved with the zero app hash; block 1 carries that
+		state.AppHash = rawdb.ReadAppHash(db, height)
+	}
 
 	lValsInfo := readValidatorsInfo(db, height, 0, sp.LastValidatorsInfoHash)
 	if state.LastBlockHeight > 0 {
